@@ -11,6 +11,9 @@ structure Lawful {R : Type} (M : RuleMod R) : Prop where
   build_norm : ∀ r, M.buildable r = true → M.buildable (M.norm r) = true
   res_norm : ∀ r, M.res (M.norm r) = M.res r
   pub_norm : M.pubValid = true → ∀ r, M.norm r = r
+  equals_canon : ∀ o r, M.equals o r = true → M.canon o = M.canon r
+  equals_buildable : ∀ o r, M.equals o r = true → M.buildable o = M.buildable r
+  canon_norm : ∀ a b, M.canon a = M.canon b → M.canon (M.norm a) = M.canon (M.norm b)
 
 theorem firstTrue_eq_zero (l : List Bool) (i : Nat) (hi : i ≠ 0) : firstTrue i l = 0 ↔ ∀ b ∈ l, b = false := by
   induction l generalizing i with
@@ -32,21 +35,10 @@ theorem flowClause_norm (tm : Int) (r : FlowRule) (h : flowClause tm r = 0) : fl
     simp
   · exact h
 
-theorem flow_lawful (tm : Int) : Lawful (flowMod tm) where
-  norm_idem r := by
-    simp only [flowMod, flowNorm]; split_ifs <;> simp_all
-  valid_norm r h := by
-    simp only [flowMod, decide_eq_true_eq] at h ⊢
-    exact flowClause_norm tm r h
-  build_norm r h := by
-    simp only [flowMod, flowBuildable, flowNorm] at h ⊢; split_ifs <;> simpa using h
-  res_norm r := by simp only [flowMod, flowNorm]; split_ifs <;> rfl
-  pub_norm h := by simp [flowMod] at h
-
 /-- a reused flow controller is bound to a rule equal, on every recorded field, to the one just handed over -/
-theorem flowIsEqualsTo_iff (a b : FlowRule) : flowIsEqualsTo a b = true ↔ a = b := by
+theorem flowIsEqualsTo_iff (a b : FlowRule) : flowIsEqualsTo a b = true ↔ flowCanon a = flowCanon b := by
   cases a; cases b
-  simp only [flowIsEqualsTo, Bool.and_eq_true, beq_iff_eq, FlowRule.mk.injEq]
+  simp only [flowIsEqualsTo, flowCanon, Bool.and_eq_true, beq_iff_eq, FlowRule.mk.injEq]
   tauto
 
 /-- a reused hotspot controller is bound to a rule that prints like the one just handed over -/
@@ -58,12 +50,41 @@ theorem hotEquals_canon (a b : HotRule) (h : hotEquals a b = true) : hotCanon a 
   subst h1 h2 h3 h4 h5 h6 h7 h8 h9
   split_ifs at h10 ⊢ <;> simp_all
 
+theorem flow_lawful (tm : Int) : Lawful (flowMod tm) where
+  norm_idem r := by
+    simp only [flowMod, flowNorm]; split_ifs <;> simp_all
+  valid_norm r h := by
+    simp only [flowMod, decide_eq_true_eq] at h ⊢
+    exact flowClause_norm tm r h
+  build_norm r h := by
+    simp only [flowMod, flowBuildable, flowNorm] at h ⊢; split_ifs <;> simpa using h
+  res_norm r := by simp only [flowMod, flowNorm]; split_ifs <;> rfl
+  pub_norm h := by simp [flowMod] at h
+  equals_canon o r h := (flowIsEqualsTo_iff o r).mp h
+  equals_buildable o r h := by
+    have := (flowIsEqualsTo_iff o r).mp h
+    cases o; cases r
+    simp only [flowCanon, FlowRule.mk.injEq] at this
+    simp only [flowMod, flowBuildable]
+    obtain ⟨-, -, h1, h2, -⟩ := this
+    subst h1 h2; rfl
+  canon_norm a b h := by
+    cases a; cases b
+    simp only [flowMod, flowCanon, FlowRule.mk.injEq] at h
+    obtain ⟨-, h1, h2, h3, h4, h5, h6, h7, h8, h9, h10, h11, h12, h13, h14⟩ := h
+    subst h1 h2 h3 h4 h5 h6 h7 h8 h9 h10 h11 h12 h13 h14
+    simp only [flowMod, flowNorm]
+    split_ifs <;> simp [flowCanon]
+
 theorem iso_lawful : Lawful isoMod where
   norm_idem _ := rfl
   valid_norm _ h := h
   build_norm _ h := h
   res_norm _ := rfl
   pub_norm _ _ := rfl
+  equals_canon _ _ h := by simp [isoMod] at h
+  equals_buildable _ _ h := by simp [isoMod] at h
+  canon_norm _ _ h := h
 
 theorem hot_lawful : Lawful hotMod where
   norm_idem r := by simp only [hotMod, hotNorm]; split_ifs <;> simp_all
@@ -76,6 +97,20 @@ theorem hot_lawful : Lawful hotMod where
     simp only [hotMod, hotBuildable, hotNorm] at h ⊢; split_ifs <;> simpa using h
   res_norm r := by simp only [hotMod, hotNorm]; split_ifs <;> rfl
   pub_norm h := by simp [hotMod] at h
+  equals_canon o r h := hotEquals_canon o r h
+  equals_buildable o r h := by
+    cases o; cases r
+    simp only [hotMod, hotEquals, Bool.and_eq_true, beq_iff_eq] at h
+    simp only [hotMod, hotBuildable]
+    obtain ⟨⟨⟨⟨⟨⟨⟨⟨⟨-, h2⟩, h3⟩, -⟩, -⟩, -⟩, -⟩, -⟩, -⟩, -⟩ := h
+    subst h2 h3; rfl
+  canon_norm a b h := by
+    cases a; cases b
+    simp only [hotMod, hotCanon, HotRule.mk.injEq] at h
+    simp only [hotMod, hotNorm, hotCanon]
+    obtain ⟨-, h1, h2, h3, h4, h5, h6, h7, h8, h9, h10, h11⟩ := h
+    subst h1 h2 h3 h4 h5 h6 h9 h10 h11
+    split_ifs <;> simp_all
 
 theorem cb_lawful : Lawful cbMod where
   norm_idem _ := rfl
@@ -83,6 +118,9 @@ theorem cb_lawful : Lawful cbMod where
   build_norm _ h := h
   res_norm _ := rfl
   pub_norm _ _ := rfl
+  equals_canon _ _ h := by simp [cbMod] at h
+  equals_buildable _ _ h := by simp [cbMod] at h
+  canon_norm _ _ h := h
 
 section
 variable {R : Type} [DecidableEq R] {M : RuleMod R}
@@ -158,15 +196,177 @@ theorem mem_buildList {k : String} {l : List (Option R)} {r : R} :
   · rintro ⟨r0, ⟨⟨o, ho, rfl⟩, hb⟩, rfl⟩; exact ⟨r0, ho, hb, rfl⟩
   · rintro ⟨r0, ho, hb, rfl⟩; exact ⟨r0, ⟨⟨some r0, ho, rfl⟩, hb⟩, rfl⟩
 
+/-! ### controller reuse: the bound objects equal the wanted rules up to what `equals` ignores -/
+
+theorem findEq_some {r o : R} {old rest : List R} (h : findEq M r old = some (o, rest)) :
+    o ∈ old ∧ M.equals o r = true ∧ ∀ x ∈ rest, x ∈ old := by
+  induction old generalizing o rest with
+  | nil => simp [findEq] at h
+  | cons a os ih =>
+    unfold findEq at h
+    by_cases he : M.equals a r = true
+    · rw [if_pos he] at h
+      simp only [Option.some.injEq, Prod.mk.injEq] at h
+      obtain ⟨rfl, rfl⟩ := h
+      exact ⟨List.mem_cons_self, he, fun x hx => List.mem_cons_of_mem _ hx⟩
+    · rw [if_neg he] at h
+      cases hf : findEq M r os with
+      | none => rw [hf] at h; simp at h
+      | some p =>
+        obtain ⟨o', rest'⟩ := p
+        rw [hf] at h
+        simp only [Option.map_some, Option.some.injEq, Prod.mk.injEq] at h
+        obtain ⟨rfl, rfl⟩ := h
+        obtain ⟨h1, h2, h3⟩ := ih hf
+        refine ⟨List.mem_cons_of_mem _ h1, h2, fun x hx => ?_⟩
+        rcases List.mem_cons.mp hx with rfl | hx
+        · exact List.mem_cons_self
+        · exact List.mem_cons_of_mem _ (h3 x hx)
+
+theorem dropStat_subset (r : R) (old : List R) : ∀ x ∈ dropStat M r old, x ∈ old := by
+  induction old with
+  | nil => simp [dropStat]
+  | cons a os ih =>
+    intro x hx
+    unfold dropStat at hx
+    split_ifs at hx
+    · exact List.mem_cons_of_mem _ hx
+    · rcases List.mem_cons.mp hx with rfl | hx
+      · exact List.mem_cons_self
+      · exact List.mem_cons_of_mem _ (ih x hx)
+
+/-- old objects that can be met: left as their constructor left them, and built by a registered generator -/
+def OldOk (M : RuleMod R) (old : List R) : Prop := ∀ o ∈ old, M.norm o = o ∧ M.buildable o = true
+
+theorem buildReuse_canon (hM : Lawful M) (k : String) (rules : List R) (hv : ∀ r ∈ rules, M.valid r = true) :
+    ∀ old, OldOk M old →
+      (buildReuse M k rules old).map M.canon = ((rules.filter (built M k)).map M.norm).map M.canon ∧
+      OldOk M (buildReuse M k rules old) := by
+  induction rules with
+  | nil => intro old _; exact ⟨rfl, fun _ h => by simp [buildReuse] at h⟩
+  | cons r rs ih =>
+    intro old ho
+    have hvr : M.valid r = true := hv r List.mem_cons_self
+    have ih' := ih (fun x hx => hv x (List.mem_cons_of_mem _ hx))
+    unfold buildReuse
+    by_cases hs : (M.scopedRes && M.res r != k) = true
+    · rw [if_pos hs]
+      have hb : built M k r = false := by
+        simp only [Bool.and_eq_true, bne_iff_ne, ne_eq] at hs
+        simp [built, hs.1, hs.2]
+      rw [List.filter_cons_of_neg (by simp [hb])]
+      exact ih' old ho
+    · rw [if_neg hs]
+      have hres : (!M.scopedRes || M.res r == k) = true := by
+        cases h1 : M.scopedRes <;> simp_all
+      cases hf : findEq M r old with
+      | some p =>
+        obtain ⟨o, rest⟩ := p
+        obtain ⟨hmem, heq, hsub⟩ := findEq_some hf
+        have hbo := ho o hmem
+        have hbr : M.buildable r = true := by rw [← hM.equals_buildable o r heq]; exact hbo.2
+        have hb : built M k r = true := by simp [built, hvr, hres, hbr]
+        have hrest : OldOk M rest := fun x hx => ho x (hsub x hx)
+        obtain ⟨e1, e2⟩ := ih' rest hrest
+        dsimp only
+        rw [List.filter_cons_of_pos hb]
+        refine ⟨?_, ?_⟩
+        · simp only [List.map_cons]
+          rw [e1]
+          congr 1
+          have := hM.canon_norm o r (hM.equals_canon o r heq)
+          rw [hbo.1] at this
+          exact this
+        · intro x hx
+          rcases List.mem_cons.mp hx with rfl | hx
+          · exact hbo
+          · exact e2 x hx
+      | none =>
+        dsimp only
+        by_cases hbr : M.buildable r = true
+        · rw [if_pos hbr]
+          have hb : built M k r = true := by simp [built, hvr, hres, hbr]
+          have hd : OldOk M (dropStat M r old) := fun x hx => ho x (dropStat_subset r old x hx)
+          obtain ⟨e1, e2⟩ := ih' _ hd
+          rw [List.filter_cons_of_pos hb]
+          refine ⟨by simp only [List.map_cons]; rw [e1], ?_⟩
+          intro x hx
+          rcases List.mem_cons.mp hx with rfl | hx
+          · exact ⟨hM.norm_idem r, hM.build_norm r hbr⟩
+          · exact e2 x hx
+        · rw [if_neg hbr]
+          have hb : built M k r = false := by
+            simp only [Bool.not_eq_true] at hbr
+            simp [built, hbr]
+          rw [List.filter_cons_of_neg (by simp [hb])]
+          exact ih' old ho
+
+theorem validList_filter_built (k : String) (l : List (Option R)) :
+    (validList M l).filter (built M k) = (l.filterMap id).filter (built M k) := by
+  unfold validList
+  rw [List.filter_filter]
+  apply List.filter_congr
+  intro r _
+  by_cases hv : M.valid r = true <;> simp_all [built]
+
+theorem buildReuse_spec (hM : Lawful M) (k : String) (l : List (Option R)) (old : List R) (ho : OldOk M old) :
+    (buildReuse M k (validList M l) old).map M.canon = (buildList M k l).map M.canon ∧
+    OldOk M (buildReuse M k (validList M l) old) := by
+  have hv : ∀ r ∈ validList M l, M.valid r = true := fun r hr => (List.mem_filter.mp hr).2
+  have := buildReuse_canon hM k (validList M l) hv old ho
+  rw [validList_filter_built] at this
+  exact this
+
+/-- without reuse (isolation, circuit breaker) the bound objects are exactly the wanted rules -/
+theorem buildReuse_of_no_equals (hne : ∀ a b, M.equals a b = false) (k : String) (rules : List R) (hv : ∀ r ∈ rules, M.valid r = true) :
+    ∀ old, buildReuse M k rules old = (rules.filter (built M k)).map M.norm := by
+  have hfe : ∀ r old, findEq M r old = none := by
+    intro r old
+    induction old with
+    | nil => rfl
+    | cons a os ih => simp [findEq, hne, ih]
+  induction rules with
+  | nil => intro old; rfl
+  | cons r rs ih =>
+    intro old
+    have hvr : M.valid r = true := hv r List.mem_cons_self
+    have ih' := ih (fun x hx => hv x (List.mem_cons_of_mem _ hx))
+    unfold buildReuse
+    by_cases hs : (M.scopedRes && M.res r != k) = true
+    · rw [if_pos hs]
+      have hb : built M k r = false := by
+        simp only [Bool.and_eq_true, bne_iff_ne, ne_eq] at hs
+        simp [built, hs.1, hs.2]
+      rw [List.filter_cons_of_neg (by simp [hb])]
+      exact ih' old
+    · rw [if_neg hs, hfe]
+      have hres : (!M.scopedRes || M.res r == k) = true := by
+        cases h1 : M.scopedRes <;> simp_all
+      dsimp only
+      by_cases hbr : M.buildable r = true
+      · rw [if_pos hbr]
+        have hb : built M k r = true := by simp [built, hvr, hres, hbr]
+        rw [List.filter_cons_of_pos hb, List.map_cons, ih']
+      · rw [if_neg hbr]
+        have hb : built M k r = false := by
+          simp only [Bool.not_eq_true] at hbr
+          simp [built, hbr]
+        rw [List.filter_cons_of_neg (by simp [hb])]
+        exact ih' old
+
 /-- the invariant relating a manager state to the raw lists in force -/
 structure Inv (M : RuleMod R) (s : MState R) (L : String → List (Option R)) : Prop where
   cache : ∀ k, s.cache k = (L k).map (normIn M k)
   enf : ∀ k, s.enf k = buildList M k (L k)
   keys : ∀ k, k ∉ s.keys → L k = []
-  pub : ∀ k, s.pub k = s.enf k ∨ (M.pubValid = true ∧ s.pub k = validList M (L k))
+  bound : ∀ k, (s.bound k).map M.canon = (s.enf k).map M.canon
+  boundOk : ∀ k, OldOk M (s.bound k)
+  boundEq : (∀ a b, M.equals a b = false) → ∀ k, s.bound k = s.enf k
+  pub : ∀ k, s.pub k = s.bound k ∨ (M.pubValid = true ∧ s.pub k = validList M (L k))
 
 theorem inv_init : Inv M (MState.init : MState R) (fun _ => []) :=
-  ⟨fun _ => rfl, fun _ => rfl, fun _ _ => rfl, fun _ => Or.inl rfl⟩
+  ⟨fun _ => rfl, fun _ => rfl, fun _ _ => rfl, fun _ => rfl, fun _ _ h => by simp [MState.init] at h,
+   fun _ _ => rfl, fun _ => Or.inl rfl⟩
 
 theorem upd_same {α : Type} (f : String → α) (k : String) (v : α) : upd f k v k = v := by simp [upd]
 theorem upd_other {α : Type} (f : String → α) {k x : String} (v : α) (h : x ≠ k) : upd f k v x = f x := by simp [upd, h]
@@ -189,17 +389,20 @@ theorem loadAll_unchanged {s : MState R} {rules : List (Option R)}
 theorem loadAll_changed {s : MState R} {rules : List (Option R)}
     (h : ¬ (s.keys ++ ruleKeys M rules).all (fun k => s.cache k == proj M k rules) = true) :
     loadAll M s rules =
-      ({ keys := ruleKeys M rules,
-         cache := fun k => (proj M k rules).map (normIn M k),
-         enf := fun k => buildList M k (proj M k rules),
-         pub := fun k => if M.pubValid then validList M (proj M k rules) else buildList M k (proj M k rules) }, .changed) := by
+      (MState.mk (ruleKeys M rules)
+         (fun k => (proj M k rules).map (normIn M k))
+         (fun k => buildList M k (proj M k rules))
+         (fun k => buildReuse M k (validList M (proj M k rules)) (s.bound k))
+         (fun k => if M.pubValid then validList M (proj M k rules)
+                   else buildReuse M k (validList M (proj M k rules)) (s.bound k)), .changed) := by
   unfold loadAll; dsimp only; rw [if_neg h]
 
 theorem loadRes_noRes {s : MState R} {rules : List (Option R)} : loadRes M s "" rules = (s, .err) := by
   unfold loadRes; simp
 
 theorem loadRes_clear {s : MState R} {res : String} (h0 : res ≠ "") :
-    loadRes M s res [] = ({ s with cache := upd s.cache res [], enf := upd s.enf res [], pub := upd s.pub res [] }, .changed) := by
+    loadRes M s res [] =
+      (MState.mk s.keys (upd s.cache res []) (upd s.enf res []) (upd s.bound res []) (upd s.pub res []), .changed) := by
   unfold loadRes; simp [h0]
 
 theorem loadRes_unchanged {s : MState R} {res : String} {rules : List (Option R)} (h0 : res ≠ "") (h1 : rules ≠ [])
@@ -209,40 +412,48 @@ theorem loadRes_unchanged {s : MState R} {res : String} {rules : List (Option R)
 theorem loadRes_changed {s : MState R} {res : String} {rules : List (Option R)} (h0 : res ≠ "") (h1 : rules ≠ [])
     (h2 : s.cache res ≠ rules) :
     loadRes M s res rules =
-      ({ keys := res :: s.keys,
-         cache := upd s.cache res (rules.map (normIn M res)),
-         enf := upd s.enf res (buildList M res rules),
-         pub := upd s.pub res (if M.pubValid then (if buildList M res rules = [] then [] else validList M rules)
-                               else buildList M res rules) }, .changed) := by
+      (MState.mk (res :: s.keys)
+         (upd s.cache res (rules.map (normIn M res)))
+         (upd s.enf res (buildList M res rules))
+         (upd s.bound res (buildReuse M res (validList M rules) (s.bound res)))
+         (upd s.pub res (if M.pubValid then (if buildList M res rules = [] then [] else validList M rules)
+                         else buildReuse M res (validList M rules) (s.bound res))), .changed) := by
   unfold loadRes; simp [h0, h1, h2]
+
+theorem buildReuse_eq_of_no_equals (hne : ∀ a b, M.equals a b = false) (k : String) (l : List (Option R)) (old : List R) :
+    buildReuse M k (validList M l) old = buildList M k l := by
+  have hv : ∀ r ∈ validList M l, M.valid r = true := fun r hr => (List.mem_filter.mp hr).2
+  rw [buildReuse_of_no_equals hne k _ hv, validList_filter_built]; rfl
 
 theorem inv_loadAll (hM : Lawful M) {s : MState R} {L : String → List (Option R)} (hI : Inv M s L) (rules : List (Option R)) :
     Inv M (loadAll M s rules).1 (fun k => proj M k rules) := by
   by_cases h : (s.keys ++ ruleKeys M rules).all (fun k => s.cache k == proj M k rules) = true
   · rw [loadAll_unchanged h]
     have hc := cache_eq_of_all hI rules h
-    refine ⟨fun k => ?_, fun k => ?_, fun k hk => ?_, fun k => ?_⟩
+    refine ⟨fun k => ?_, fun k => ?_, fun k hk => ?_, hI.bound, hI.boundOk, hI.boundEq, fun k => ?_⟩
     · show s.cache k = _
       rw [← hc k, hI.cache k, map_normIn_idem hM]
     · show s.enf k = _
       rw [← hc k, hI.enf k, hI.cache k, buildList_map_normIn hM]
     · show proj M k rules = []
       rw [← hc k, hI.cache k, hI.keys k hk]; rfl
-    · show s.pub k = s.enf k ∨ _
+    · show s.pub k = s.bound k ∨ _
       rcases hI.pub k with hp | ⟨hp, hv⟩
       · exact Or.inl hp
       · refine Or.inr ⟨hp, ?_⟩
         show s.pub k = validList M (proj M k rules)
         rw [hv, ← hc k, hI.cache k, normIn_eq_self_of_pub hM hp]
   · rw [loadAll_changed h]
-    refine ⟨fun k => rfl, fun k => rfl, fun k hk => proj_nil_of_not_mem k rules hk, fun k => ?_⟩
+    refine ⟨fun k => rfl, fun k => rfl, fun k hk => proj_nil_of_not_mem k rules hk,
+            fun k => (buildReuse_spec hM k _ _ (hI.boundOk k)).1, fun k => (buildReuse_spec hM k _ _ (hI.boundOk k)).2,
+            fun hne k => buildReuse_eq_of_no_equals hne k _ _, fun k => ?_⟩
     by_cases hp : M.pubValid = true
     · exact Or.inr ⟨hp, by simp [hp]⟩
     · exact Or.inl (by simp [hp])
 
 theorem inv_upd_nil {s : MState R} {L : String → List (Option R)} (hI : Inv M s L) (res : String) :
-    Inv M { s with cache := upd s.cache res [], enf := upd s.enf res [], pub := upd s.pub res [] } (upd L res []) := by
-  refine ⟨fun k => ?_, fun k => ?_, fun k hk => ?_, fun k => ?_⟩
+    Inv M (MState.mk s.keys (upd s.cache res []) (upd s.enf res []) (upd s.bound res []) (upd s.pub res [])) (upd L res []) := by
+  refine ⟨fun k => ?_, fun k => ?_, fun k hk => ?_, fun k => ?_, fun k => ?_, fun hne k => ?_, fun k => ?_⟩
   all_goals by_cases hk' : k = res
   · subst hk'; simp [upd_same]
   · simp only [upd_other _ _ hk']; exact hI.cache k
@@ -250,6 +461,12 @@ theorem inv_upd_nil {s : MState R} {L : String → List (Option R)} (hI : Inv M 
   · simp only [upd_other _ _ hk']; exact hI.enf k
   · subst hk'; simp [upd_same]
   · simp only [upd_other _ _ hk']; exact hI.keys k hk
+  · subst hk'; simp [upd_same]
+  · simp only [upd_other _ _ hk']; exact hI.bound k
+  · subst hk'; simp [upd_same, OldOk]
+  · simp only [upd_other _ _ hk']; exact hI.boundOk k
+  · subst hk'; simp [upd_same]
+  · simp only [upd_other _ _ hk']; exact hI.boundEq hne k
   · subst hk'; simp [upd_same]
   · simp only [upd_other _ _ hk']; exact hI.pub k
 
@@ -263,7 +480,7 @@ theorem inv_loadRes (hM : Lawful M) {s : MState R} {L : String → List (Option 
   · subst h1; rw [loadRes_clear h0]; exact inv_upd_nil hI res
   by_cases hc : s.cache res = rules
   · rw [loadRes_unchanged h0 h1 hc]
-    refine ⟨fun k => ?_, fun k => ?_, fun k hk => ?_, fun k => ?_⟩
+    refine ⟨fun k => ?_, fun k => ?_, fun k hk => ?_, hI.bound, hI.boundOk, hI.boundEq, fun k => ?_⟩
     all_goals by_cases hk' : k = res
     · subst hk'; rw [upd_same, ← hc, hI.cache k, map_normIn_idem hM]
     · rw [upd_other _ _ hk']; exact hI.cache k
@@ -278,7 +495,7 @@ theorem inv_loadRes (hM : Lawful M) {s : MState R} {L : String → List (Option 
         rw [upd_same, hv, ← hc, hI.cache k, normIn_eq_self_of_pub hM hp]
     · rw [upd_other _ _ hk']; exact hI.pub k
   · rw [loadRes_changed h0 h1 hc]
-    refine ⟨fun k => ?_, fun k => ?_, fun k hk => ?_, fun k => ?_⟩
+    refine ⟨fun k => ?_, fun k => ?_, fun k hk => ?_, fun k => ?_, fun k => ?_, fun hne k => ?_, fun k => ?_⟩
     all_goals by_cases hk' : k = res
     · subst hk'; simp [upd_same]
     · simp only [upd_other _ _ hk']; exact hI.cache k
@@ -287,11 +504,21 @@ theorem inv_loadRes (hM : Lawful M) {s : MState R} {L : String → List (Option 
     · subst hk'; simp at hk
     · simp only [upd_other _ _ hk']
       exact hI.keys k (fun hm => hk (List.mem_cons_of_mem _ hm))
+    · subst hk'; simp only [upd_same]; exact (buildReuse_spec hM k _ _ (hI.boundOk k)).1
+    · simp only [upd_other _ _ hk']; exact hI.bound k
+    · subst hk'; simp only [upd_same]; exact (buildReuse_spec hM k _ _ (hI.boundOk k)).2
+    · simp only [upd_other _ _ hk']; exact hI.boundOk k
+    · subst hk'; simp only [upd_same]; exact buildReuse_eq_of_no_equals hne k _ _
+    · simp only [upd_other _ _ hk']; exact hI.boundEq hne k
     · subst hk'
       simp only [upd_same]
       by_cases hp : M.pubValid = true
       · by_cases hb : buildList M k rules = []
-        · exact Or.inl (by simp [hp, hb])
+        · left
+          simp only [hp, hb, if_true]
+          have := (buildReuse_spec hM k rules (s.bound k) (hI.boundOk k)).1
+          rw [hb] at this
+          simpa using this.symm
         · exact Or.inr ⟨hp, by simp [hp, hb]⟩
       · exact Or.inl (by simp [hp])
     · simp only [upd_other _ _ hk']; exact hI.pub k
